@@ -120,7 +120,8 @@ def _extract_one(src, fn, flags, hh, plugin_hash, headers=False):
 
 
 HOST_NAME = "_verif_host_headers.c"
-PUBLIC_HEADERS = ["vnadata.h", "vnacal.h", "vnaconv.h", "vnaproperty.h", "vnaerr.h", "vnacommon.h"]
+PUBLIC_HEADERS = ["archdep.h", "vnadata.h", "vnacal.h", "vnaconv.h", "vnaproperty.h", "vnaerr.h", "vnacommon.h",
+                  "vnacommon_internal.h", "vnacal_internal.h", "vnacal_new_internal.h"]
 
 
 def extract_all(src=None, only=None):
